@@ -1,0 +1,40 @@
+//go:build verif
+
+// Contracts for the gocv verifier (comment-only file; see /verif/DESIGN.md §4).
+package ecs_handler
+
+//@ type ECSHandler
+//@   immutable args, preset
+
+//@ func newSubnet
+//@   ensures result != nil && fresh(result)
+
+// addECS (C15): reports true only if forwarding is configured AND the client's own subnet option
+// was just copied into the upstream query (the last option of the query OPT is that option).
+//@ func (e *ECSHandler) addECS [C15]
+//@   log addECS
+//@   requires e != nil && qCtx != nil && qCtx.query != nil && okRRs(qCtx.query.Extra) && !noOPT(qCtx.query.Extra) && len(qCtx.query.Question) >= 1
+//@   modifies *
+//@   preserves comp(sequence.ChainNode), comp(sequence.ChainWalker), elemsof(*sequence.ChainNode), elemsof(sequence.Matcher)
+//@   ensures qCtx.query == old(qCtx.query)
+//@   ensures calls(QOpt) == 1
+//@   ensures forwarded ==> e.args.Forward && qCtx.clientOpt != nil && optCode(o) == 8 && len(ret(QOpt, 0).Option) >= 1 && ret(QOpt, 0).Option[len(ret(QOpt, 0).Option) - 1] == o
+//@   loop 0:
+//@     invariant e != nil && qCtx != nil && queryOpt != nil && queryOpt == ret(QOpt, 0) && calls(QOpt) == 1
+//@   loop 1:
+//@     invariant e != nil && qCtx != nil && queryOpt != nil && queryOpt == ret(QOpt, 0) && clientOpt != nil && clientOpt == qCtx.clientOpt && e.args.Forward && calls(QOpt) == 1
+
+// Exec (C15): the upstream's subnet option goes back to the client only when the client's own
+// subnet option was forwarded upstream for THIS query (not merely because forwarding is enabled);
+// otherwise this plugin leaves the reply OPT exactly as the rest of the chain left it.
+//@ func (e *ECSHandler) Exec [C15]
+//@   requires e != nil && qCtx != nil && qCtx.query != nil && okRRs(qCtx.query.Extra) && !noOPT(qCtx.query.Extra) && len(qCtx.query.Question) >= 1
+//@   requires wfK(next.chain, next.p, next.jumpBack)
+//@   modifies *
+//@   ensures calls(addECS) == 1 && arg(addECS, 0, 1) == qCtx && calls(ExecNext) == 1 && callpos(addECS, 0) < callpos(ExecNext, 0)
+//@   ensures result != nil ==> result == ret(ExecNext, 0)
+//@   ensures !ret(addECS, 0) ==> qCtx.respOpt == aftercall(ExecNext, 0, qCtx.respOpt) && qCtx.respOpt.Option == aftercall(ExecNext, 0, qCtx.respOpt.Option)
+//@   loop 0:
+//@     invariant e != nil && qCtx != nil && respOpt != nil && upstreamOpt != nil && ret(addECS, 0) && calls(ExecNext) == 1 && calls(addECS) == 1 && 0 <= it0 && respOpt.Option == aftercall(ExecNext, 0, respOpt.Option)
+//@     each len(respOpt.Option) == athead(len(respOpt.Option)) || len(respOpt.Option) == athead(len(respOpt.Option)) + 1
+//@     each len(respOpt.Option) == athead(len(respOpt.Option)) + 1 ==> optCode(o) == 8 && respOpt.Option[len(respOpt.Option) - 1] == o
